@@ -647,6 +647,10 @@ func walkIPRanges(ranges []nets.IPRange, f func(ip net.IP) bool) {
 			if f(ip) {
 				return
 			}
+			if first == last {
+				// do not increase first beyond last, it wraps around to 0 if last is 255.255.255.255
+				break
+			}
 		}
 	}
 }
